@@ -39,6 +39,9 @@ var vosFuncs = map[string]bool{
 	"Remove": true, "WriteFile": true, "ReadFile": true, "Truncate": true, "Link": true,
 }
 
+// range statements over maps whose keys cannot be sorted (by file, by offset of the range expression)
+var unorderedMapRanges = map[string]map[int]bool{}
+
 type edit struct {
 	start, end int // byte offsets in the original source
 	text       string
@@ -289,8 +292,29 @@ func rewriteFile(fset *token.FileSet, f *ast.File, src []byte, name string, plai
 			b.Write(src[pos:to])
 			return b.String()
 		}
+		labeled := map[ast.Stmt]bool{}
+		ast.Inspect(f, func(n ast.Node) bool {
+			if ls, ok := n.(*ast.LabeledStmt); ok {
+				labeled[ls.Stmt] = true
+			}
+			return true
+		})
+		// selects inside a loop over a map with unsortable keys run in an order no
+		// schedule can replay: they keep source-order polling but get no choice point
+		inUnordered := map[ast.Stmt]bool{}
+		ast.Inspect(f, func(n ast.Node) bool {
+			if rs, ok := n.(*ast.RangeStmt); ok && unorderedMapRanges[name][off(rs.X.Pos())] {
+				ast.Inspect(rs.Body, func(m ast.Node) bool {
+					if ss, ok := m.(*ast.SelectStmt); ok {
+						inUnordered[ss] = true
+					}
+					return true
+				})
+			}
+			return true
+		})
 		for _, sel := range selects {
-			ok := len(sel.Body.List) >= 2
+			ok := len(sel.Body.List) >= 2 && !labeled[sel]
 			for _, c := range sel.Body.List {
 				cc, isCC := c.(*ast.CommClause)
 				if !isCC || cc.Comm == nil {
@@ -300,16 +324,32 @@ func rewriteFile(fset *token.FileSet, f *ast.File, src []byte, name string, plai
 			if !ok {
 				continue
 			}
+			needSched = true
+			n := len(sel.Body.List)
+			id := off(sel.Pos())
 			var b strings.Builder
-			for _, c := range sel.Body.List {
-				b.WriteString("select {\n")
-				b.WriteString(rewritten(off(c.Pos()), off(c.End())))
-				b.WriteString("\ndefault:\n")
+			if inUnordered[sel] {
+				fmt.Fprintf(&b, "{ _vsk%d := 0; _vsh%d := false\n", id, id)
+			} else {
+				fmt.Fprintf(&b, "{ _vsk%d := vsched.Choose(%d); _vsh%d := false\n", id, n, id)
+			}
+			for pos := 0; pos <= 2*n-2; pos++ {
+				cc := sel.Body.List[pos%n].(*ast.CommClause)
+				colon := off(cc.Colon)
+				fmt.Fprintf(&b, "if !_vsh%d && _vsk%d <= %d && %d < _vsk%d+%d { select {\n", id, id, pos, pos, id, n)
+				b.WriteString(rewritten(off(cc.Pos()), colon+1))
+				fmt.Fprintf(&b, " _vsh%d = true; ", id)
+				b.WriteString(rewritten(colon+1, off(cc.End())))
+				b.WriteString("\ndefault:\n} }\n")
 			}
 			line := fset.Position(sel.Pos()).Line
-			fmt.Fprintf(&b, "\n//line %s:%d\n", fset.Position(sel.Pos()).Filename, line)
+			fmt.Fprintf(&b, "if !_vsh%d {\n//line %s:%d\n", id, fset.Position(sel.Pos()).Filename, line)
 			edits = append(edits, edit{off(sel.Pos()), off(sel.Pos()), b.String()})
-			edits = append(edits, edit{off(sel.End()), off(sel.End()), strings.Repeat("}", len(sel.Body.List))})
+			closing := "}}"
+			if isTerminating(sel) {
+				closing += "; panic(\"unreachable\")"
+			}
+			edits = append(edits, edit{off(sel.End()), off(sel.End()), closing})
 		}
 	}
 
@@ -387,7 +427,7 @@ func typedMapRanges(repo, out, gobin string, fset *token.FileSet, files []*ast.F
 	digest := hex.EncodeToString(h.Sum(nil))[:24]
 	cacheDir := filepath.Join(out, "typecache")
 	os.MkdirAll(cacheDir, 0o755)
-	cacheFile := filepath.Join(cacheDir, digest+".json")
+	cacheFile := filepath.Join(cacheDir, digest+".v2.json")
 
 	offsets := map[string][]int{}
 	if b, err := os.ReadFile(cacheFile); err == nil && json.Unmarshal(b, &offsets) == nil {
@@ -398,6 +438,16 @@ func typedMapRanges(repo, out, gobin string, fset *token.FileSet, files []*ast.F
 		os.WriteFile(cacheFile, b, 0o644)
 	}
 
+	unorderedMapRanges = map[string]map[int]bool{}
+	for k, v := range offsets {
+		if strings.HasSuffix(k, "#u") {
+			m := map[int]bool{}
+			for _, o := range v {
+				m[o] = true
+			}
+			unorderedMapRanges[strings.TrimSuffix(k, "#u")] = m
+		}
+	}
 	res := map[string][]ast.Expr{}
 	for i, f := range files {
 		n := names[i]
@@ -467,9 +517,96 @@ func computeMapRanges(repo, gobin string, fset *token.FileSet, files []*ast.File
 			}
 			if b, ok := m.Key().Underlying().(*types.Basic); ok && b.Info()&(types.IsString|types.IsInteger) != 0 {
 				res[names[i]] = append(res[names[i]], fset.Position(rs.X.Pos()).Offset)
+			} else {
+				res[names[i]+"#u"] = append(res[names[i]+"#u"], fset.Position(rs.X.Pos()).Offset)
 			}
 			return true
 		})
 	}
 	return res
+}
+
+
+// isTerminating implements the "terminating statement" rules of the Go
+// specification (without labels on break): a select that is terminating
+// stays so for the compiler only if something terminating follows the block
+// the instrumenter wraps it in.
+func isTerminating(st ast.Stmt) bool {
+	switch x := st.(type) {
+	case *ast.ReturnStmt:
+		return true
+	case *ast.BranchStmt:
+		return x.Tok == token.GOTO
+	case *ast.ExprStmt:
+		if c, ok := x.X.(*ast.CallExpr); ok {
+			if id, ok := c.Fun.(*ast.Ident); ok && id.Name == "panic" {
+				return true
+			}
+		}
+		return false
+	case *ast.BlockStmt:
+		return len(x.List) > 0 && isTerminating(x.List[len(x.List)-1])
+	case *ast.IfStmt:
+		return x.Else != nil && isTerminating(x.Body) && isTerminating(x.Else)
+	case *ast.ForStmt:
+		return x.Cond == nil && !hasBreak(x.Body)
+	case *ast.LabeledStmt:
+		return isTerminating(x.Stmt)
+	case *ast.SwitchStmt:
+		return clausesTerminate(x.Body, true)
+	case *ast.TypeSwitchStmt:
+		return clausesTerminate(x.Body, true)
+	case *ast.SelectStmt:
+		return clausesTerminate(x.Body, false)
+	}
+	return false
+}
+
+func clausesTerminate(body *ast.BlockStmt, needDefault bool) bool {
+	hasDefault := false
+	for _, c := range body.List {
+		var list []ast.Stmt
+		switch cc := c.(type) {
+		case *ast.CaseClause:
+			if cc.List == nil {
+				hasDefault = true
+			}
+			list = cc.Body
+		case *ast.CommClause:
+			list = cc.Body
+		}
+		if len(list) == 0 {
+			return false
+		}
+		last := list[len(list)-1]
+		if br, ok := last.(*ast.BranchStmt); ok && br.Tok == token.FALLTHROUGH {
+			continue
+		}
+		if !isTerminating(last) {
+			return false
+		}
+		for _, s := range list {
+			if hasBreak(s) {
+				return false
+			}
+		}
+	}
+	return hasDefault || !needDefault
+}
+
+// hasBreak reports an unlabelled break that would refer to the enclosing statement.
+func hasBreak(n ast.Node) bool {
+	found := false
+	ast.Inspect(n, func(x ast.Node) bool {
+		switch y := x.(type) {
+		case *ast.ForStmt, *ast.RangeStmt, *ast.SwitchStmt, *ast.TypeSwitchStmt, *ast.SelectStmt, *ast.FuncLit:
+			return x == n // do not descend into nested breakable statements
+		case *ast.BranchStmt:
+			if y.Tok == token.BREAK {
+				found = true
+			}
+		}
+		return true
+	})
+	return found
 }
